@@ -1,4 +1,5 @@
 // @inject src/arena/bump.rs
+// @append src/arena/mod.rs: pub(crate) use bump::verif_kani as verif_bump;
 // Contracts for src/arena/bump.rs (property C11, shared by C14).
 // Injected by /verif/check as `#[cfg(kani)] #[path = ".../kani/bump.rs"] mod verif_kani;` at the end of the
 // real src/arena/bump.rs of a scratch copy of /repo: `super::*` is the real module, private items included.
@@ -234,7 +235,7 @@ fn any_block(a: &Arena, max_size: usize) -> (usize, Layout) {
 
 const GROW_MAX: usize = if THOROUGH { 4096 } else { 256 };
 
-// @harness property=C11 fn=<Arena as Allocator>::grow kind=proof tier=quick cfg=debug timeout=600 domain="loop-free; all wf states; any block below offset (size <= 256, 4096 thorough; align <= 64); new size <= old + 256 (4096); positions/offsets only (contents: grow__content_scenarios)"
+// @harness property=C11 fn="<Arena as Allocator>::grow" kind=proof tier=quick cfg=debug timeout=600 domain="loop-free; all wf states; any block below offset (size <= 256, 4096 thorough; align <= 64); new size <= old + 256 (4096); positions/offsets only (contents: grow__content_scenarios)"
 #[kani::proof]
 #[kani::stub(<crate::sys::unix::UnixVirtualMemory as crate::sys::VirtualMemory>::commit, vm_commit_any)]
 fn grow__contract() {
@@ -278,7 +279,7 @@ fn grow__contract() {
 
 // Contents across grow / grow_zeroed / Vec growth: concrete layout, symbolic bytes (memcpy between two symbolic
 // positions of one 64 KiB object does not terminate in CBMC, see DESIGN.md section 4).
-// @harness property=C11 fn=<Arena as Allocator>::grow+grow_zeroed kind=bounded tier=quick cfg=debug timeout=600 domain="bounded: fixed scenario (blocks of 5, 3, 12, 20 bytes at offset 0 of a fresh arena; tail and non-tail grow, grow_zeroed), all byte contents symbolic"
+// @harness property=C11 fn="<Arena as Allocator>::grow+grow_zeroed" kind=bounded tier=quick cfg=debug timeout=600 domain="bounded: fixed scenario (blocks of 5, 3, 12, 20 bytes at offset 0 of a fresh arena; tail and non-tail grow, grow_zeroed), all byte contents symbolic"
 #[kani::proof]
 #[kani::stub(<crate::sys::unix::UnixVirtualMemory as crate::sys::VirtualMemory>::commit, vm_commit_ok)]
 fn grow__content_scenarios() {
@@ -328,7 +329,7 @@ fn grow__content_scenarios() {
 }
 
 // Vec<u8, &Arena> growth goes through allocate/grow only: contents survive interleaved growth of two vectors.
-// @harness property=C11 fn=Vec<u8,&Arena>::push->Allocator::grow kind=bounded tier=quick cfg=debug timeout=600 domain="bounded: two vectors, 9 and 5 pushes interleaved (RawVec growth 0->8->16), symbolic bytes"
+// @harness property=C11 fn="Vec<u8,&Arena>::push -> Allocator::grow" kind=bounded tier=quick cfg=debug timeout=600 domain="bounded: two vectors, 9 and 5 pushes interleaved (RawVec growth 0->8->16), symbolic bytes"
 #[kani::proof]
 #[kani::unwind(10)]
 #[kani::stub(<crate::sys::unix::UnixVirtualMemory as crate::sys::VirtualMemory>::commit, vm_commit_ok)]
@@ -359,7 +360,7 @@ fn vec_growth__contents_preserved() {
     kani::cover!(v.capacity() >= 16, "cover: vector grew twice");
 }
 
-// @harness property=C11 fn=<Arena as Allocator>::allocate_zeroed kind=proof tier=quick cfg=debug domain="all wf states; size <= 4096 (content checked at a symbolic index), align <= 64"
+// @harness property=C11 fn="<Arena as Allocator>::allocate_zeroed" kind=proof tier=quick cfg=debug domain="all wf states; size <= 4096 (content checked at a symbolic index), align <= 64"
 #[kani::proof]
 #[kani::stub(<crate::sys::unix::UnixVirtualMemory as crate::sys::VirtualMemory>::commit, vm_commit_any)]
 fn allocate_zeroed__contract() {
@@ -389,7 +390,7 @@ fn allocate_zeroed__contract() {
 // Allocator::shrink     tail: offset' == offset - old + new, same pointer, len == new.size
 //                       non-tail (release builds; debug builds assert): block and state unchanged, len == old.size
 // =====================================================================================================
-// @harness property=C11 fn=<Arena as Allocator>::shrink kind=proof tier=quick cfg=debug domain="loop-free; all wf states; tail block of any size <= offset"
+// @harness property=C11 fn="<Arena as Allocator>::shrink" kind=proof tier=quick cfg=debug domain="loop-free; all wf states; tail block of any size <= offset"
 #[kani::proof]
 fn shrink__tail_contract() {
     let a = any_arena(MAX_CHUNKS);
